@@ -49,8 +49,13 @@ enum {
     OP_ARR_GET = 19,       /* 5: index 0, 1, last, size, size+1 */
     OP_ARR_REMOVE = 24,    /* 5 */
     OP_ARR_SIZE = 29,
-    NOPS = 30
+    OP_DUP_OBJ = 30,       /* replace the object by aws_json_value_duplicate() of itself, destroy the original */
+    OP_DUP_ARR = 31,       /* same for the array: every later operation then works on a duplicate */
+    NOPS = 32
 };
+static int o_is_dup, r_is_dup; /* provenance is part of the canonical state: a duplicate is a different object internally
+                                * (own tail pointers etc.), so everything is explored again on duplicates (added after a
+                                * seeded change in cJSON_Duplicate that only showed when appending to a duplicate) */
 static const char *IDXNAME[5] = {"0", "1", "last", "size", "size+1"};
 
 static bool ieq(const char *a, const char *b) {
@@ -183,6 +188,7 @@ static void m_reset(void) {
     O = aws_json_value_new_object(A);
     R = aws_json_value_new_array(A);
     on = an = 0;
+    o_is_dup = r_is_dup = 0;
     memset(gen, 0, sizeof(gen));
     memset(okey, 0, sizeof(okey));
     memset(oval, 0, sizeof(oval));
@@ -210,10 +216,14 @@ static bool m_enabled(int op) {
         if (op == OP_ARR_ADD) return an < MAXEL;
         if (op == OP_ARR_GET + 2 || op == OP_ARR_REMOVE + 2) return an > 0; /* "last" needs an element */
     }
+    if (op == OP_DUP_OBJ) return !o_is_dup;
+    if (op == OP_DUP_ARR) return g_cfg.with_array && !r_is_dup;
     return true;
 }
 static void m_opname(int op, char *buf, size_t cap) {
-    if (op < OP_ADD_CSTR) snprintf(buf, cap, "add_to_object(<%s>)", g_cfg.keys[op]);
+    if (op == OP_DUP_OBJ) snprintf(buf, cap, "object := duplicate(object)");
+    else if (op == OP_DUP_ARR) snprintf(buf, cap, "array := duplicate(array)");
+    else if (op < OP_ADD_CSTR) snprintf(buf, cap, "add_to_object(<%s>)", g_cfg.keys[op]);
     else if (op < OP_GET) snprintf(buf, cap, "add_to_object_c_str(<%s>)", g_cfg.keys[op - OP_ADD_CSTR]);
     else if (op < OP_HAS) snprintf(buf, cap, "get_from_object(<%s>)", g_cfg.keys[op - OP_GET]);
     else if (op < OP_REMOVE) snprintf(buf, cap, "has_key(<%s>)", g_cfg.keys[op - OP_HAS]);
@@ -228,7 +238,18 @@ static void m_opname(int op, char *buf, size_t cap) {
 static void m_apply(int op) {
     char nm[64];
     m_opname(op, nm, sizeof(nm));
-    if (op < OP_GET) { /* ---- add ---- */
+    if (op == OP_DUP_OBJ || op == OP_DUP_ARR) {
+        struct aws_json_value **slot = op == OP_DUP_OBJ ? &O : &R;
+        struct aws_json_value *d = aws_json_value_duplicate(*slot);
+        ESX_CHECK(d != NULL, "duplicate-failed", "%s returned NULL", nm);
+        if (d) {
+            ESX_CHECK(aws_json_value_compare(*slot, d, true), "duplicate-not-equal", "%s: duplicate does not compare equal to its original", nm);
+            aws_json_value_destroy(*slot);
+            *slot = d;
+            if (op == OP_DUP_OBJ) o_is_dup = 1; else r_is_dup = 1;
+            V_COUNT("duplicates_taken", 1);
+        }
+    } else if (op < OP_GET) { /* ---- add ---- */
         int k = op % 3, cstr = op >= OP_ADD_CSTR;
         int at = ref_find(k), twin = ref_case_twin(k);
         int n = 10 * (k + 1) + gen[k];
@@ -356,6 +377,7 @@ static size_t m_canon(uint8_t *b, size_t cap) {
     for (int k = 0; k < NK; ++k) b[o++] = (uint8_t)gen[k];
     b[o++] = (uint8_t)an;
     for (int i = 0; i < an; ++i) b[o++] = (uint8_t)aval[i];
+    b[o++] = (uint8_t)(o_is_dup | r_is_dup << 1);
     return o;
 }
 
